@@ -128,6 +128,8 @@ def build_task(job):
         data["logid"] = job["_logid"]
     if job.get("_callfile"):
         data["callfile"] = job["_callfile"]
+    if job.get("delay"):
+        data["delay"] = job["delay"]
     if job.get("derive_from"):
         # a task derived from an already USED task of the same shape (model_copy keeps pydantic private state): multi-step history
         base = gen.make_task(job["derive_from"], job["objective"], data=dict(data), **kw)
@@ -196,7 +198,12 @@ def _dump(model):
         if hasattr(v, "value") and v.__class__.__module__.endswith("enums"):
             return str(v.value)
         return v if isinstance(v, (int, str, bool, type(None))) else repr(v)
-    return conv(model.model_dump())
+    out = conv(model.model_dump())
+    vs = getattr(model, "variables", None)
+    if isinstance(vs, list):
+        # task.model_dump() serialises the variables as the declared base class (name only): dump each with its own fields and children
+        out["variables"] = [[type(v).__name__, conv(v.model_dump()), [conv(c.model_dump()) for c in (v.get() if v.has_children() else [])]] for v in vs]
+    return out
 
 
 def run_traced(job, opt=None):
